@@ -136,6 +136,7 @@ def r1_identifiers(ctx: Ctx) -> None:
     WRITERS = ('merchant_engine.MerchantEngine.parse', 'section_engine.parse_sections', 'merchant_utils.apply_transforms',
                'config_loader.load_supplemental_sources', 'format_parser.parse_format_string')
     sites = []
+    let_sites = 0
     for q in WRITERS:
         f = proj.func(q)
         fl = get_flow(proj, f)
@@ -176,9 +177,36 @@ def r1_identifiers(ctx: Ctx) -> None:
                if not ((tb := table_of(t.slice, f.module)) is not None and all(isinstance(v, str) and v == v.lower() for v in tb[0].values()))]
         for st, t, sh in dyn:
             sites.append((f, t.slice, st, sh, {c for c, oks in checked_local.items() if all(oks)} | {t2.value.id for _s, t2, _h in dyn if isinstance(t2.value, ast.Name)}))
-        for n, e in find(f.node, "V_r['let_bindings'].append((E_k, ANY))"):
-            sites.append((f, n.args[0].elts[0], n, "rule['let_bindings']", set()))
+        # let-bindings are kept as (name, expression) pairs in a list: every pair appended to it, in whatever spelling
+        # (`r['let_bindings'].append((k, e))`, `r.setdefault('let_bindings', []).append(pair)` with `pair = (k, e)`)
+        for n in all_nodes(f.node):
+            if not (isinstance(n, ast.Call) and isinstance(n.func, ast.Attribute) and n.func.attr == 'append' and len(n.args) == 1):
+                continue
+            holder = n.func.value
+            named = (isinstance(holder, ast.Subscript) and isinstance(holder.slice, ast.Constant) and holder.slice.value == 'let_bindings') or \
+                    (isinstance(holder, ast.Call) and isinstance(holder.func, ast.Attribute) and holder.func.attr in ('setdefault', 'get') and holder.args
+                     and isinstance(holder.args[0], ast.Constant) and holder.args[0].value == 'let_bindings')
+            if not named:
+                continue
+            pairs = [(n.args[0], n)]
+            if isinstance(n.args[0], ast.Name) and fl.cfg.has(n):
+                # every definition of the local that reaches the append; `None` (no binding, rejected before the append) carries no name
+                pairs = []
+                for d in fl.cfg.defs_reaching(fl.stmt_of(n), n.args[0].id):
+                    st = fl.cfg.stmt.get(d) if d != 'param' else None
+                    v = st.value if isinstance(st, ast.Assign) and len(st.targets) == 1 and isinstance(st.targets[0], ast.Name) else None
+                    if isinstance(v, ast.Constant) and v.value is None:
+                        continue
+                    pairs.append((v, st))
+            for pair, at in pairs:
+                if isinstance(pair, ast.Tuple) and len(pair.elts) == 2:
+                    sites.append((f, pair.elts[0], at, "rule['let_bindings']", set()))
+                    let_sites += 1
+                else:
+                    ctx.unknown('C04.R1', f, f'let binding appended as {src(n.args[0])!r}: not a (name, expression) pair the rule can read')
     ctx.need(not (len(sites) < 8), f'C04.R1: only {len(sites)} definition sites found (10 confirmed by hand)')
+    if not let_sites:
+        ctx.unknown('C04.R1', proj.func(WRITERS[0]), 'no let_bindings.append(...) site found: where are let: names stored?')
     for f, key, node, sh, tables in sites:
         ok = key_lowered(f, key, node, tables)
         ctx.check(ok, 'C04.R1', f, f'define:{sh}', f'name stored in {sh} under a lower-cased key ({src(key)})',
@@ -644,6 +672,13 @@ def r8_reference(ctx: Ctx) -> None:
     find1(te.methods['_eval_Call'].node, 'V_fn = node.func.id.lower()', fenv)
     special = {n.comparators[0].value for n in ast.walk(te.methods['_eval_Call'].node)
                if isinstance(n, ast.Compare) and isinstance(n.left, ast.Name) and n.left.id == fenv.get('V_fn') and isinstance(n.comparators[0], ast.Constant)}
+    # names dispatched through a class-level table of handler methods (`self._BUILTIN_CALLS.get(func_name)`)
+    from ._tables import method_table
+    for n_ in ast.walk(te.methods['_eval_Call'].node):
+        if isinstance(n_, (ast.Subscript, ast.Call)):
+            mt = method_table(n_, te.methods['_eval_Call'].module, te)
+            if mt is not None and isinstance(mt[1], ast.Name) and mt[1].id == fenv.get('V_fn'):
+                special |= set(mt[0])
     txn_funcs = fn_names | special
     view_funcs = set()
     for s in ast.walk(ec.methods['__init__'].node):
